@@ -454,8 +454,12 @@ func genC14(r *R, n int, tier string, out *Out) {
 		if i < 2 { // the empty list and the empty object are always among the cases
 			isObj = i == 1
 		}
+		long := r.chance(0.03) // a long container: multiplicities up to 40 per kind
 		for k := 0; k < 7 && i >= 2; k++ {
 			m := pickOf(r, []int{0, 0, 1, 3, 2})
+			if long {
+				m = pickOf(r, []int{0, 1, 9, 17, 33, 40})
+			}
 			for j := 0; j < m; j++ {
 				var e *V
 				switch k {
@@ -746,6 +750,9 @@ func genC17(r *R, n int, tier string, out *Out) {
 		}
 		if boosted() {
 			ln = 60 + r.Intn(200)
+		}
+		if r.chance(0.03) {
+			ln = pickOf(r, stressSizes)
 		}
 		var elems []*V
 		tag := ""
